@@ -125,6 +125,10 @@ def open_modes(P) -> List[str]:
     return out
 
 
+UNKNOWN = object()
+NONEMPTY = ("<nonempty list>",)
+
+
 def ev(e: ast.AST, env: Dict[str, object]):
     """Evaluate over the finite abstract domain; returns a Python value or raises KeyError for 'unknown'."""
     if isinstance(e, ast.Constant):
@@ -196,11 +200,14 @@ def ev(e: ast.AST, env: Dict[str, object]):
             return a is not b
     if isinstance(e, ast.Call) and norm(e.func) == "isinstance" and norm(e.args[0]) == "record":
         return (env["__kind"] == "list") == (norm(e.args[1]) == "list")
+    if isinstance(e, ast.Call) and norm(e.func) == "isinstance" and len(e.args) == 2:
+        # a concretely known value against builtin types
+        val = ev(e.args[0], env)
+        BT = {"str": str, "bytes": bytes, "int": int, "bool": bool, "list": list, "tuple": tuple, "dict": dict, "float": float}
+        ts = e.args[1].elts if isinstance(e.args[1], ast.Tuple) else [e.args[1]]
+        if val is not UNKNOWN and not (isinstance(val, tuple) and val is NONEMPTY) and all(norm(t) in BT for t in ts):
+            return isinstance(val, tuple(BT[norm(t)] for t in ts))
     raise KeyError(norm(e))
-
-
-UNKNOWN = object()
-NONEMPTY = ("<nonempty list>",)
 
 
 def interpret(g, fi, env: Dict[str, object]) -> List[List[str]]:
